@@ -148,6 +148,27 @@ def make_case(seed, i):
             valid_files, files = mv(valid_files), mv(files)
             what = (what or "") + " [the version lives in ../Pkg, next to the package's own directory pkg]"
             desc["case_variant_directory"] = "Pkg"
+    # the directory that holds the invalidation is reached through a symbolic link: the package's own directory (the command is
+    # started in the link) or a referenced one (manifests name the link)
+    sl = rng.fork("symlink")
+    if files is not None and sl.chance(0.3):
+        changed = sorted({"/".join(p.split("/")[:3]) for p in set(files) | set(valid_files) if files.get(p) != valid_files.get(p)})
+        changed = [d for d in changed if (d + "/_package.yml") in valid_files]
+        if changed:
+            d = sl.choice(changed)
+            name = d.rsplit("/", 1)[1]
+            desc["links"] = {d + "_link": d}
+            desc["reached_through_symlink"] = name
+            if d == "/w/pkg":
+                desc["cwd"] = "/w/pkg_link"
+            else:
+                import re as _re
+                rx = _re.compile(r"\.\./" + _re.escape(name) + r"(?![\w-])")
+
+                def relink(fs):
+                    return {p: (rx.sub("../" + name + "_link", c) if p.endswith("/_package.yml") else c) for p, c in fs.items()}
+                valid_files, files = relink(valid_files), relink(files)
+            what = (what or "") + " [%s is reached through the symbolic link %s_link]" % (name, name)
     desc["invalidation"] = what
     # what else package directories hold: hidden files, documentation, editor settings (the same in both trees)
     cl = rng.fork("clutter")
@@ -172,7 +193,7 @@ def run_case(sim, seed, i):
     rng = M.derive(seed, "c11run", i)
     ms = rng.next() % (1 << 31) + 1
     # the valid original must generate (positive control, and source of the pre-populated output)
-    good = sim.run(tw.oneshot_spec(valid_files, "/w/pkg"), mapseed=ms)
+    good = sim.run(tw.oneshot_spec(valid_files, desc.get("cwd", "/w/pkg"), links=desc.get("links") or {}), mapseed=ms)
     stats["runs"] += 1
     if not (good.get("status") == "returned" and good.get("exit_code") == 0):
         stats["skipped"] = "generator_rejected"
@@ -206,7 +227,7 @@ def run_case(sim, seed, i):
             mf = E.model_files(earlier, "/w/pkg")
             if mf:
                 earlier[mf[0]] = earlier[mf[0]] + "\nUsesLegacy: !record\n  fields:\n    old: Legacy.LegacyRec\n"
-            old = sim.run(tw.oneshot_spec(earlier, "/w/pkg"), mapseed=ms)
+            old = sim.run(tw.oneshot_spec(earlier, desc.get("cwd", "/w/pkg"), links=desc.get("links") or {}), mapseed=ms)
             stats["runs"] += 1
             if old.get("status") == "returned" and old.get("exit_code") == 0:
                 src = old
@@ -239,7 +260,7 @@ def run_case(sim, seed, i):
                 mt[p_] = -3600
         last_mt.clear()
         last_mt.update(mt)
-        spec = tw.oneshot_spec(init, "/w/pkg", dirs=pre_dirs, faults=faults or [], mtimes=mt)
+        spec = tw.oneshot_spec(init, desc.get("cwd", "/w/pkg"), dirs=pre_dirs, faults=faults or [], mtimes=mt, links=desc.get("links") or {})
         stats["runs"] += 1
         return sim.run(spec, mapseed=ms), init
 
@@ -310,7 +331,7 @@ def run_case(sim, seed, i):
         fr = rng.fork("wfault", j)
         o = fr.choice(wops)
         fault = {"op": o["op"], "path": o["path"].split(" -> ")[-1], "exact": True, "nth": 1, "errno": fr.choice(["ENOSPC", "EIO", "EACCES"])}
-        res = sim.run(tw.oneshot_spec(valid_files, "/w/pkg", faults=[fault]), mapseed=ms)
+        res = sim.run(tw.oneshot_spec(valid_files, desc.get("cwd", "/w/pkg"), faults=[fault], links=desc.get("links") or {}), mapseed=ms)
         stats["runs"] += 1
         fired = any(f.get("fired") for f in (res.get("faults") or []))
         if not fired or res.get("status") == "process_died":
@@ -347,7 +368,8 @@ def replay(sim, doc):
         return hit, str(viol)
     init = dict(doc["files"])
     init.update(doc.get("pre_files", {}))
-    res = sim.run(tw.oneshot_spec(init, "/w/pkg", dirs=doc.get("pre_dirs", []), faults=doc.get("faults", []), mtimes=doc.get("mtimes") or {}), mapseed=doc["mapseed"])
+    case = doc.get("case") or {}
+    res = sim.run(tw.oneshot_spec(init, case.get("cwd", "/w/pkg"), dirs=doc.get("pre_dirs", []), faults=doc.get("faults", []), mtimes=doc.get("mtimes") or {}, links=case.get("links") or {}), mapseed=doc["mapseed"])
     if res.get("status") == "process_died":
         return False, "process died: " + res.get("stderr_tail", "")[-300:]
     failed = res["exit_code"] != 0 or res["status"] != "returned"
